@@ -16,6 +16,7 @@ import (
 	"fmt"
 	wasmvmtypes "github.com/CosmWasm/wasmvm/v2/types"
 	"github.com/osmosis-labs/osmosis/v31/wasmbinding"
+	mempool1559 "github.com/osmosis-labs/osmosis/v31/x/txfees/keeper/mempool-1559"
 	"io"
 	"os"
 	"os/exec"
@@ -810,6 +811,11 @@ func c19RunRole(c *vk.Ctx) bool {
 	nBlocks, _ := strconv.Atoi(os.Getenv("VERIF_C19_BLOCKS"))
 	hseed, _ := strconv.ParseUint(os.Getenv("VERIF_C19_HSEED"), 10, 64)
 	tag := os.Getenv("VERIF_C19_TAG")
+	if v := os.Getenv("VERIF_C19_BASEFEE"); v != "" {
+		// fault injection on process-local state: this node's in-memory fee market starts from another value, as on a
+		// node restarted from its backup file. It is mempool policy only; blocks must execute exactly as elsewhere.
+		mempool1559.CurEipState.CurBaseFee = osmomath.MustNewDecFromStr(v)
+	}
 	switch role {
 	case "primary":
 		ch := chain.New(c19Options())
@@ -1006,7 +1012,7 @@ func runC19(c *vk.Ctx) {
 	if c19RunRole(c) {
 		return
 	}
-	c.R.Rule = "cases = transaction histories (signed transactions through FinalizeBlock: pool creation, joins/exits of every kind on balancer / stableswap / 3-asset pools, routed / split swaps of both kinds with taker fees incl. failing ones, concentrated positions (create / add / withdraw / transfer / claims), external no-lock gauges, locks with reward receivers, partial unlocks, superfluid delegate / undelegate / unbond on a share denom and through concentrated full-range positions (assets enabled by recorded admin actions), validator-set preferences, plain staking and reward withdrawals, a weight-shifting balancer pool, lock gauges with two reward denoms, token-factory mint / burn / force-transfer / change-admin / metadata, smart-account authenticators, protorev administration, fees paid in a registered non-native fee token, minted pool incentives routed by distribution records, bank sends; several transactions per block; day and week epoch boundaries) generated and executed by a primary process; 3 replica processes replay the history with GOMAXPROCS 1 / 4 / 16 and different GOGC (every process has its own map-iteration seeds); for every export point (every k-th block and every epoch block) a fresh process is initialised from the exported state and fed the rest of the history; one export is imported twice and the two imported nodes must have identical app hashes. Compared: app hash, per-transaction code / codespace / gas / data / events and block events between replicas of one lineage; per-transaction results, canonicalised per-module exported state and a query battery (spot prices, estimates, TWAPs, balances, locks, gauges, positions with claimable rewards, delegations, validator-set preferences, authenticators, fee tokens, distribution records, supplies) at the final height between the original and every imported node. distinct_nontrivial counts distinct (comparison kind, message kinds in the block, epoch block?, export distance bucket) tuples."
+	c.R.Rule = "cases = transaction histories (signed transactions through FinalizeBlock: pool creation, joins/exits of every kind on balancer / stableswap / 3-asset pools, routed / split swaps of both kinds with taker fees incl. failing ones, concentrated positions (create / add / withdraw / transfer / claims), external no-lock gauges, locks with reward receivers, partial unlocks, superfluid delegate / undelegate / unbond on a share denom and through concentrated full-range positions (assets enabled by recorded admin actions), validator-set preferences, plain staking and reward withdrawals, a weight-shifting balancer pool, lock gauges with two reward denoms, token-factory mint / burn / force-transfer / change-admin / metadata, smart-account authenticators, protorev administration, fees paid in a registered non-native fee token, minted pool incentives routed by distribution records, bank sends; several transactions per block; day and week epoch boundaries) generated and executed by a primary process; 3 replica processes replay the history with GOMAXPROCS 1 / 4 / 16 and different GOGC (every process has its own map-iteration seeds; one replica and the import twin start with a different in-memory fee-market base fee, as a node restarted from its backup file would); for every export point (every k-th block and every epoch block) a fresh process is initialised from the exported state and fed the rest of the history; one export is imported twice and the two imported nodes must have identical app hashes. Compared: app hash, per-transaction code / codespace / gas / data / events and block events between replicas of one lineage; per-transaction results, canonicalised per-module exported state and a query battery (spot prices, estimates, TWAPs, balances, locks, gauges, positions with claimable rewards, delegations, validator-set preferences, authenticators, fee tokens, distribution records, supplies) at the final height between the original and every imported node. distinct_nontrivial counts distinct (comparison kind, message kinds in the block, epoch block?, export distance bucket) tuples."
 	nHist := c.N(3, 16)
 	nBlocks := c.N(60, 400)
 	if os.Getenv("VERIF_C19_MODE") == "race" {
@@ -1051,7 +1057,7 @@ func runC19(c *vk.Ctx) {
 		}
 		jobs := []job{
 			{"replica-p1", env("replica", "replica-p1", map[string]string{"GOMAXPROCS": "1", "GOGC": "20"})},
-			{"replica-p4", env("replica", "replica-p4", map[string]string{"GOMAXPROCS": "4", "GOGC": "400"})},
+			{"replica-p4", env("replica", "replica-p4", map[string]string{"GOMAXPROCS": "4", "GOGC": "400", "VERIF_C19_BASEFEE": "9.5"})},
 			{"replica-p16", env("replica", "replica-p16", map[string]string{"GOMAXPROCS": "16", "GOGC": "off"})},
 		}
 		if sb := os.Getenv("VERIF_SKEW_BIN"); sb != "" && !raceMode {
@@ -1092,7 +1098,7 @@ func runC19(c *vk.Ctx) {
 				// a second node initialised from the same exported state: two imports of one state are one lineage and
 				// must agree bit for bit (app hashes), whatever order InitGenesis walks its in-memory maps in
 				twinOf = "import-" + h
-				jobs = append(jobs, job{"importtwin-" + h, env("import", "importtwin-"+h, map[string]string{"VERIF_C19_EXPORT": e, "GOMAXPROCS": "1", "GOGC": "30"})})
+				jobs = append(jobs, job{"importtwin-" + h, env("import", "importtwin-"+h, map[string]string{"VERIF_C19_EXPORT": e, "GOMAXPROCS": "1", "GOGC": "30", "VERIF_C19_BASEFEE": "7"})})
 			}
 		}
 		type done struct {
